@@ -1,7 +1,7 @@
 """C04 - typed arguments and sized data accept exactly their range, never truncating.
 
 Exhaustive enumeration monitor: every width N in 0..16 (both tiers complete; quick samples the deep rejected #d values, thorough enumerates them)
-and every value v in [-2^N-4, 2^N+4], for uN / sN / iN parameters and #dN directives, in six
+and every value v in [-2^N-4, 2^N+4], for uN / sN / iN parameters and #dN directives, in eight
 spellings. Acceptance is observed through a larger untyped fallback rule (the marker bit and the
 encoding size reveal which rule was taken), rejection itself (error, no output) is observed alone
 for every value within 4 of a boundary and a seeded sample of the others.
@@ -12,7 +12,7 @@ SPEC = {
     "level": "exploration",
     "technique": "exhaustive enumeration of (kind, width, value, spelling) with an arithmetic range predicate as oracle; accept/reject observed through marker bits of a cascading fallback rule and through single-instruction runs",
     "level_text": ("Exhaustive enumeration of a finite space: all (kind in u/s/i/#d, N, v) with N <= 16 (both tiers; quick samples deep-rejected #d cells alone, thorough runs all of them alone) "
-                   "(thorough), v in [-2^N-4, 2^N+4], each in six spellings; the oracle is the arithmetic range predicate of "
+                   "(thorough), v in [-2^N-4, 2^N+4], each in eight spellings; the oracle is the arithmetic range predicate of "
                    "the property and the emitted bits must be v mod 2^N. Widths up to 256 are sampled around each boundary."),
     "level_note": ("Complete for the stated grid (exhaustive: true); trusts only Python integer arithmetic and the bit-stream "
                    "decoder of the marker scheme. Known finding: N = 0 rejects v = 0 (exact case keys)."),
@@ -28,7 +28,7 @@ SPEC = {
     "assumptions": ["the fallback rule `t {x} => 0b0 @ x`(N+9)` is only taken when the typed rule's constraint fails (smallest encoding wins)"],
 }
 
-SPELLINGS = ["dec", "hex", "bin", "neg", "expr", "const"]
+SPELLINGS = ["dec", "hex", "bin", "neg", "expr", "const", "not", "sizedarith"]
 
 
 def accepts(kind, n, v):
@@ -63,6 +63,12 @@ def spell(v, how, consts):
         return ("-(%d)" % -v if v != 0 else "-0"), None
     if how == "expr":
         return "((%d + 3) - 3)" % v if v >= 0 else "((0 - %d) + 0)" % a, None
+    if how == "not":
+        # bitwise complement of a sized literal: the result is an unsized integer
+        return ("!0x%x" % (-v - 1) if v < 0 else "!(-0x%x)" % (v + 1)), None
+    if how == "sizedarith":
+        # arithmetic over sized literals: the result is an unsized integer
+        return ("(0x%x + 0b0)" % v if v >= 0 else "(0b0 - 0x%x)" % a), None
     if how == "const":
         name = "c%s%d" % ("m" if v < 0 else "p", a)
         consts[name] = v
